@@ -18,7 +18,7 @@ func (its *MongoCollections) UpdateClient(
 		return errors.ServerDBQuery.New(ctx.L(), err.Error())
 	}
 
-	if result.ModifiedCount == 1 || result.UpsertedCount == 1 {
+	if result.MatchedCount == 1 || result.UpsertedCount == 1 {
 		return nil
 	}
 	return errors.ServerDBQuery.New(ctx.L(), "fail to update client")
